@@ -88,21 +88,38 @@ func (e *Exec) global(s *State, g *ssa.Global) Val {
 	if v, ok := s.Ghost[key]; ok {
 		return v
 	}
-	// Globals are only supported when they are error sentinels or read-only
-	// values we can treat opaquely: model the cell as holding an opaque value.
 	elem := g.Type().(*types.Pointer).Elem()
-	var content Val
-	switch u := elem.Underlying().(type) {
-	case *types.Interface:
-		content = Iface{Dyn: types.NewPointer(types.Universe.Lookup("error").Type()), V: Opaque{Tag: g.Name(), Typ: elem}}
-		_ = u
-	default:
-		unsupported("global %s of type %s", g.Name(), elem)
+	// error sentinels: opaque non-nil errors
+	if _, isIface := elem.Underlying().(*types.Interface); isIface {
+		content := Iface{Dyn: types.NewPointer(types.Universe.Lookup("error").Type()), V: Opaque{Tag: g.Name(), Typ: elem}}
+		r := s.alloc(content)
+		delete(s.Fresh, r.Cell)
+		s.Ghost[key] = r
+		return r
 	}
-	r := s.alloc(content)
-	delete(s.Fresh, r.Cell)
-	s.Ghost[key] = r
-	return r
+	// other package-level variables of the module: their value is what the
+	// package initialiser stores (assumed not to be reassigned later; listed)
+	if g.Pkg != nil && strings.HasPrefix(g.Pkg.Pkg.Path(), e.w.modPath) {
+		r := s.alloc(zeroVal(elem))
+		delete(s.Fresh, r.Cell)
+		s.Ghost[key] = r
+		initKey := "initdone:" + g.Pkg.Pkg.Path()
+		if _, done := s.Ghost[initKey]; !done {
+			s.Ghost[initKey] = tTrue
+			if initFn := g.Pkg.Func("init"); initFn != nil && initFn.Blocks != nil {
+				depth := len(s.Frames)
+				outs := e.run(s, initFn, nil)
+				if len(outs) != 1 || outs[0].Panic != "" || outs[0].St != s {
+					unsupported("package initialiser of %s is outside the subset", g.Pkg.Pkg.Path())
+				}
+				s.Frames = s.Frames[:depth]
+			}
+			s.Trace = append(s.Trace, "assume: package-level variable "+g.Name()+" keeps the value its initialiser gives it")
+		}
+		return r
+	}
+	unsupported("global %s of type %s", g.Name(), elem)
+	return nil
 }
 
 func (e *Exec) constVal(c *ssa.Const) Val {
